@@ -23,6 +23,7 @@ import numpy as np
 from vlib import record, agp_model, moments, stoprule
 
 ACTIVE = False
+STRIP_LISTENERS = False      # when set, listeners the workload attaches are noted but NOT attached (C13: run without them)
 RECORDS = []
 _installed = False
 
@@ -78,6 +79,8 @@ def install():
         rec = getattr(self, "_ambient", None)
         if rec is not None:
             rec.user_listeners.append(type(listener).__name__)
+            if STRIP_LISTENERS and ACTIVE:
+                return None
         return o_add(self, listener)
 
     Solver.__init__, Solver.Solve, Solver.DoGlobalIteration, Solver.AddListener = __init__, Solve, DoGlobalIteration, AddListener
@@ -357,3 +360,55 @@ def run_ambient_case(c, pid):
     return {"violations": viol, "obs": obs, "nontrivial": bool(recs), "keys": keys,
             "sample": {"kind": "ambient", "workload": c["path"], "solvers": len(recs),
                        "trials": obs.get("ambient_trials", 0)} if recs else None}
+
+
+def compare_with_and_without_listeners(c):
+    """C13 on an authored workload: the script is executed twice, once as written and once with every listener it attaches
+    left out; every solver's trial log (global and local phase) and final result must be identical."""
+    global STRIP_LISTENERS
+    repo = os.environ.get("IOPT_REPO", "/repo")
+    path = os.path.join(repo, c["path"])
+    if not os.path.exists(path):
+        return {"violations": [], "obs": {"ambient_missing_scripts": 1}, "skip": "ambient-script-missing"}
+    run = (lambda: run_script(path)) if c["ambient"] == "script" else (lambda: run_unittest(path, c.get("filter")))
+    recs1, out1, err1 = run()
+    STRIP_LISTENERS = True
+    try:
+        recs2, out2, err2 = run()
+    finally:
+        STRIP_LISTENERS = False
+    viol = []
+    obs = {"ambient_workloads": 1, "ambient_kinds": [c["path"]], "ambient_solvers_compared": 0}
+    if isinstance(err1, str) and err1:
+        # a shipped listener made the script raise?  only a finding if the run without listeners did not raise
+        if not (isinstance(err2, str) and err2):
+            viol.append({"mech": "ambient:listener-makes-api-raise", "workload": c["path"], "traceback": err1[-1500:]})
+        else:
+            obs["ambient_script_failed"] = 1
+    if len(recs1) != len(recs2):
+        viol.append({"mech": "ambient:listeners-change-number-of-solvers", "workload": c["path"], "with": len(recs1), "without": len(recs2)})
+    keys = []
+    for n, (a, b) in enumerate(zip(recs1, recs2)):
+        la = [e for e in a.proxy.log if e["ph"] in ("g", "l")]
+        lb = [e for e in b.proxy.log if e["ph"] in ("g", "l")]
+        obs["ambient_solvers_compared"] += 1
+        obs["ambient_trials"] = obs.get("ambient_trials", 0) + len(la)
+        obs["ambient_probe_calls"] = obs.get("ambient_probe_calls", 0) + len([e for e in a.proxy.log if e["ph"] == "p"])
+        if a.user_listeners:
+            obs["ambient_with_user_listeners"] = obs.get("ambient_with_user_listeners", 0) + 1
+            obs["ambient_listener_kinds"] = sorted(set(obs.get("ambient_listener_kinds", [])) | set(a.user_listeners))
+        same = len(la) == len(lb) and all(x["ph"] == y["ph"] and np.array_equal(x["y"], y["y"]) and record.same_value(x["v"], y["v"]) for x, y in zip(la, lb))
+        if not same and len(viol) < 6:
+            k = next((i for i, (x, y) in enumerate(zip(la, lb)) if x["ph"] != y["ph"] or not np.array_equal(x["y"], y["y"])), min(len(la), len(lb)))
+            viol.append({"mech": "ambient:listener-changes-trial-sequence", "workload": c["path"], "solver_index": n, "with": len(la), "without": len(lb),
+                         "first_diff": k, "listeners": a.user_listeners})
+        fa, fb = record.snap_solution(a.solver.GetResults()), record.snap_solution(b.solver.GetResults())
+        eq = ((fa["y"] is None) == (fb["y"] is None)) and (fa["y"] is None or np.array_equal(fa["y"], fb["y"])) and \
+            (record.same_value(fa["v"], fb["v"]) or (fa["v"] is None and fb["v"] is None)) and fa["nG"] == fb["nG"] and fa["nL"] == fb["nL"]
+        if not eq and len(viol) < 6:
+            viol.append({"mech": "ambient:listener-changes-result", "workload": c["path"], "solver_index": n, "listeners": a.user_listeners,
+                         "with": [None if fa["y"] is None else fa["y"].tolist(), fa["v"], fa["nG"], fa["nL"]],
+                         "without": [None if fb["y"] is None else fb["y"].tolist(), fb["v"], fb["nG"], fb["nL"]]})
+        keys.append("ambient|%s|%d|%d" % (c["path"], n, len(la)))
+    return {"violations": viol, "obs": obs, "nontrivial": bool(recs1), "keys": keys,
+            "sample": {"kind": "ambient with/without listeners", "workload": c["path"], "solvers": len(recs1)} if recs1 else None}
